@@ -1,5 +1,6 @@
 import IceModel.Notifier
 import IceSpec.C11
+import IceSpec.C11View
 import Driver.Util
 /-!
 Tie A for the notifier: one op line per recorded history of ONE stream of the real `handlerNotifier`
@@ -21,27 +22,7 @@ in flight.
 -/
 namespace Driver.Notifier
 open IceModel.Notifier IceSpec.C11 Driver
-
-/-- parse one token -/
-def parseTok (t : String) : Option HEv :=
-  let body := (t.drop 1).toString
-  match t.front with
-  | 'E' => match body.splitOn ":" with
-    | [k, e] => do pure (.enqCall (← k.toNat?) (← e.toNat?))
-    | _ => none
-  | 'R' => body.toNat?.map .enqRet
-  | 'I' => body.toNat?.map .enter
-  | 'O' => body.toNat?.map .exit
-  | 'C' => match body.splitOn ":" with
-    | [j, "g"] => j.toNat?.map (.closeCall · true)
-    | [j, "n"] => j.toNat?.map (.closeCall · false)
-    | _ => none
-  | 'D' => body.toNat?.map .closeRet
-  | 'Q' => if body.isEmpty then some .quiet else none
-  | 'T' => if body.isEmpty then some .stuck else none
-  | 'L' => body.toNat?.map .leak
-  | '!' => if body.isEmpty then some .crash else none
-  | _ => none
+open IceSpec.C11.View (parseTok)
 
 structure Pend where
   k : Nat
@@ -270,10 +251,8 @@ def accept (toks : List String) : String × Option String :=
     let order := evs.filterMap fun | .enter e => some e | _ => none
     if greedy order evs then ("recorded", none) else acceptSearch toks
 
-def monitor (toks : List String) : Option String :=
-  match toks.mapM parseTok with
-  | none => some "unparsable history"
-  | some evs => monitorStream evs
+/-- the string monitor of `IceSpec/C11View.lean` (`C11_view_roundtrip`, `C11_model_passes_string_monitor`) -/
+def monitor (toks : List String) : Option String := IceSpec.C11.View.monitorToks toks
 
 def line (toks : List String) (_impl : String) : Res :=
   match toks with
